@@ -44,6 +44,9 @@ DET_WL, DET_MI, DET_PO = 0.52, 1.41, (0.0, 1.0)       # what the detector itself
 
 def scatterer(kind):
     c = (0.7, 0.9, 6.0)
+    if kind == "sphere_lens":
+        from holopy.scattering.theory import Lens
+        return Sphere(n=1.59, r=0.5, center=c), Lens(0.8, Mie(False, False), 16, 16)
     if kind in ("sphere", "sphere_mielens"):
         return Sphere(n=1.59, r=0.5, center=c), (MieLens(lens_angle=0.8) if kind == "sphere_mielens" else None)
     if kind == "layered":
@@ -68,6 +71,8 @@ def detector(kind, pol_for_attrs=None, raise_by=1.7):
         d = detector_grid((1, 7), 0.25, name="line")
     elif kind == "points":
         d = detector_points(x=np.array([0.1, 1.9, -0.6, 3.0]), y=np.array([0.4, 0.2, 2.2, -1.0]), z=0.0, name="pts")
+    elif kind == "points_spherical":
+        d = detector_points(r=np.array([11.0, 12.5, 14.0]), theta=np.array([0.2, 0.5, 0.9]), phi=np.array([0.3, 2.0, 4.4]), name="sph")
     elif kind == "pixel_subset":
         from holopy.core.metadata import make_subset_data
         d = make_subset_data(detector_grid((5, 4), 0.3, name="sub"), pixels=7, seed=3)
@@ -206,6 +211,11 @@ def run(ctx):
             and g.states[s_]["req"]["alpha"] != "zero" and g.states[s_]["req"]["wl"] != "none"
             and g.states[s_]["req"]["mi"] != "none" and g.states[s_]["req"]["po"] != "none"]
     chosen += perm[:24] if quick else perm
+    # likewise the rarer detector kinds and the lens wrapper: a batch of complete requests each
+    for fld, val in (("det", "points_spherical"), ("det", "pixel_subset"), ("det", "raised_plane"), ("scat", "sphere_lens")):
+        batch = [s_ for s_ in inits if g.states[s_]["req"][fld] == val and g.states[s_]["req"]["alpha"] != "zero"
+                 and all(g.states[s_]["req"][k_] != "none" for k_ in ("wl", "mi", "po"))]
+        chosen += batch[:10] if quick else batch[:150]
     for sid in inits:
         rq = g.states[sid]["req"]
         vals = {(k, v) for k, v in rq.items()}
@@ -294,6 +304,10 @@ def run(ctx):
                 if cname in det.coords and cname in det.dims:
                     if cname not in h.coords or not np.array_equal(h[cname].values, det[cname].values):
                         bad = ("coordinates", {"coord": cname})
+            if rq["det"] == "points_spherical":
+                for cname in ("r", "theta", "phi"):
+                    if cname not in h.coords or not np.array_equal(np.asarray(h[cname].values, dtype=float), np.asarray(det[cname].values, dtype=float)):
+                        bad = ("point_coordinates_changed", {"coord": cname, "impl": np.asarray(h[cname].values).tolist() if cname in h.coords else None})
             if rq["det"] == "pixel_subset":
                 if h.dims != det.dims or h.shape != det.shape or not all(
                         np.array_equal(np.asarray(h[c].values, dtype=float), np.asarray(det[c].values, dtype=float)) for c in ("x", "y", "z")):
@@ -357,7 +371,16 @@ def run(ctx):
                     continue
                 if d1 > 1e-12 or d2 > 1e-12:
                     bad = ("value", {"holo_defect": d1, "intensity_defect": d2})
-                elif rq["det"] == "raised_plane":
+                elif "illum_polarization" in kw and not multi and rq["scat"] in ("sphere_lens", "sphere_mielens", "sphere", "layered"):
+                    # the field is odd in the polarisation vector, the hologram even: p and -p give one picture
+                    kwm = dict(kw, illum_polarization=tuple(-float(v) for v in kw["illum_polarization"]))
+                    with warnings.catch_warnings():
+                        warnings.simplefilter("ignore")
+                        hm = calc_holo(det, sc, scaling=alpha, **kwm)
+                    d4 = float(np.max(np.abs(np.asarray(hm.values) - np.asarray(h.values))))
+                    if d4 > 1e-12:
+                        bad = ("hologram_changes_with_sign_of_polarisation", {"defect": d4})
+                if bad is None and rq["det"] == "raised_plane":
                     # only distances matter: the plane at height 0 and the particle lowered by as much
                     det0 = det.assign_coords(z=det.z.values - RAISE)
                     with warnings.catch_warnings():
